@@ -206,6 +206,12 @@ def i3(ctx):
     ta, tl = resolve(add, ka), resolve(lookup, kl)
     ctx.check(ta is not None and ta == tl, "same-key-function", "add and lookup both key the hashcons by %s" % (C.short(ta) if ta else None),
               "add keys the hashcons by %s (%s) but lookup by %s (%s): lookup would miss what add inserted" % (role_str(ka), ta, role_str(kl), tl), where_of(add))
+    # lookup answers by the hashcons and nothing else: every path through it (looking through single-use helpers) reaches the
+    # internal lookup — no early `None` from a test of its own ("a child is dead", "the node has no children" ..)
+    lv = mir.inline_view(crate, lookup, keep=tuple(C.short(x).split("::")[-1] for x in lk))
+    hits = {c.bb for c in lv.calls if c.callee and c.callee.target in lk and not lv.blocks[c.bb]["cleanup"]}
+    ctx.check(bool(hits) and lv.must_pass([0], lv.return_blocks(), hits), "lookup-always-consults-hashcons", "every path through EGraph::lookup goes through the hashcons lookup",
+              "EGraph::lookup can return without consulting the hashcons: for a node that add() would find (add canonicalises the children through the union-find first) lookup answers None — e.g. when a child handle is older than a union that merged its class away", where_of(lookup))
     # the key function is the strong shape: it goes through the canonical-variant function
     if ta in crate.bodies:
         from .c01 import canonical_variant_functions
@@ -361,8 +367,12 @@ def i7(ctx):
             if c.callee and c.callee.name == "index_mut" and role_mentions_call(b.role_of_operand(c.args[0]), "applied_id_occurrences_mut"):
                 i_w = role_str(b.role_of_operand(c.args[1]))
                 child = role_str(b.role_of_operand(re_arg(rec[0])))
-                # same loop counter drives the child index and the occurrence index
+                # same loop counter drives the child index and the occurrence index: the child is `children[i]` for exactly
+                # the `i` that indexes the occurrence vector (no arithmetic on it: `children[len - 1 - i]` is another child)
                 idx_ok = ("next(" in i_w) and ("next(" in child)
+                cr = strip_role(b.role_of_operand(re_arg(rec[0])))
+                if idx_ok and isinstance(cr, tuple) and cr[0] == "call" and cr[1] == "index" and len(cr[3]) == 2:
+                    idx_ok = role_str(strip_role(cr[3][1]), 12) == role_str(strip_role(b.role_of_operand(c.args[1])), 12)
         if not idx_ok:
             # zipped form: `for (i, r) in refs.iter_mut().enumerate() { **r = rec(children[i]) }`
             child = b.role_of_operand(re_arg(rec[0]))
